@@ -690,6 +690,24 @@ def written_catalogue(rng, tag="w"):
         else:
             out.append((f"(({Xname} - A[{lname}]) * ({Xname}.T - A.T).T).sum()", (lambda A=A: ((X - A) * (X.T - A.T).T).sum()),
                         (lambda vals, A0=A0: float(np.sum((XV(vals) - A0) ** 2))), all_x))
+    # a SYMMETRIC matrix variable: an off-diagonal variable occupies two cells, every reduction counts both
+    Sn = [[sym(i, j) for j in range(3)] for i in range(3)]
+    SV = lambda vals: np.array([[vals[t] for t in row] for row in Sn], dtype=float)
+    all_s = sorted({t for row in Sn for t in row})
+    As = np.array([[1.5, -2.0, 0.5], [3.0, 1.0, -1.5], [2.5, 0.25, -0.75]])
+    sforms = [("frob[S]", lambda: frobenius_norm(S), lambda vals: float(np.linalg.norm(SV(vals)))),
+              ("S.sum()", lambda: S.sum(), lambda vals: float(np.sum(SV(vals)))),
+              ("(S*S).sum()", lambda: (S * S).sum(), lambda vals: float(np.sum(SV(vals) ** 2))),
+              ("frob[S.T]**2", lambda: frobenius_norm(S.T) ** 2, lambda vals: float(np.sum(SV(vals) ** 2))),
+              ("(S*A).sum()", lambda: (S * As).sum(), lambda vals: float(np.sum(SV(vals) * As))),
+              ("frob[S - A]", lambda: frobenius_norm(S - As), lambda vals: float(np.linalg.norm(SV(vals) - As))),
+              ("S.trace() * S.sum()", lambda: S.trace() * S.sum(), lambda vals: float(np.trace(SV(vals)) * np.sum(SV(vals)))),
+              ("exp(0.25*frob[S])", lambda: F.exp(0.25 * frobenius_norm(S)), lambda vals: float(np.exp(0.25 * np.linalg.norm(SV(vals))))),
+              ("frob[S[0:2,0:2]]", lambda: frobenius_norm(S[0:2, 0:2]), lambda vals: float(np.linalg.norm(SV(vals)[0:2, 0:2]))),
+              ("S[0:2,1:3].sum()", lambda: S[0:2, 1:3].sum(), lambda vals: float(np.sum(SV(vals)[0:2, 1:3])))]
+    rng.shuffle(sforms)
+    for lab, bld, rf in sforms[:5]:
+        out.append((lab, bld, rf, all_s))
     return out
 
 
